@@ -349,6 +349,8 @@ func runC16(e *Engine, r *Report) {
 	ruleCreatedFileSync(e, r, 1, "internal/fileutil", "internal/server", "internal/transport", "internal/rsm", "")
 	// shrinking the recorded snapshot is crash-safe only after the on-disk state machine synced (decided by C08's rule set)
 	borrow(e, r, "C08", "MPT-sync-before-shrink")
+	ruleRawMkdir(e, r)
+	ruleSnapshotDeleteOlder(e, r)
 }
 
 // dependsOnGuard: some branch condition on the way to `in` depends on a pred value.
